@@ -393,3 +393,18 @@ Lemma lipschitz_half_mm_refuted_lemma :
     Rabs (t2 - t1 - 8 / 1000000000) <= 1 / 100000000000000000000 /\
     5 / 10000 <= r1 - r2.
 Proof. exact (half_mm_refuted_gen d_tables witness_okb_current table_ok_current_lemma). Qed.
+
+(* ---------- z-symmetry of the executable PrimFloat instance (bit level, NaN included) ----------
+   uses the standard library's specification of the primitive abs / opp (FloatAxioms) *)
+From Coq Require Import Floats.
+Lemma prim_abs_opp (z : float) : PrimFloat.abs (PrimFloat.opp z) = PrimFloat.abs z.
+Proof.
+  apply Prim2SF_inj. rewrite !abs_spec, opp_spec. destruct (Prim2SF z); reflexivity.
+Qed.
+
+Lemma z_symmetric_prim_lemma m (ts : ptables) t z :
+  tables_at prim_arith m ts (PrimFloat.opp z) t = tables_at prim_arith m ts z t.
+Proof.
+  unfold tables_at. change (f_abs prim_arith (PrimFloat.opp z)) with (PrimFloat.abs (PrimFloat.opp z)).
+  change (f_abs prim_arith z) with (PrimFloat.abs z). rewrite prim_abs_opp. reflexivity.
+Qed.
